@@ -189,3 +189,4 @@ pub mod c29;
 pub mod c10;
 pub mod c22;
 pub mod c07;
+pub mod c08;
